@@ -235,7 +235,20 @@ func genCursorCase(withFaults bool) *rapid.Generator[CursorCase] {
 		}
 		// consumer script
 		total := c.World.Files * c.World.Blocks * c.World.Rows
-		switch unif(t, "script", 14) {
+		switch unif(t, "script", 15) {
+		case 14:
+			// many candidate files on a small budget and a consumer that stops
+			// reading: the pipeline backs up all the way to the stage that pulls
+			// candidates from the MetaStore; then Close (or cancel) must still end it
+			c.World = CursorWorldSpec{Files: pick(t, "mfiles", []int{60, 90}), Blocks: 1, Rows: pick(t, "mrows", []int{10, 70})}
+			c.Query = pick(t, "mquery", []string{"all", "token"})
+			c.QConc = pick(t, "mqconc", []int{1, 2, 3})
+			c.LatencyUs = 0
+			c.IterGate = -1
+			c.Faults = nil
+			c.Steps = append(c.Steps, CursorStep{Op: "next", N: rapid.IntRange(0, 5).Draw(t, "mk")}, CursorStep{Op: "stall", Ms: rapid.IntRange(30, 80).Draw(t, "mstall")},
+				CursorStep{Op: pick(t, "mterm", []string{"close", "close", "cancel"})})
+			return c
 		case 13:
 			// a world with a malformed block: its rows scan, then the scan fails
 			// (a failure in the middle of the pipeline, not at a store call)
